@@ -590,12 +590,17 @@ def assemble(unit: dict, scratch: str, passname="A") -> Assembled:
         parts.append(it)
     parts.append("// ==== spec pack ====")
     spec_region_start = sum(p.count("\n") + 1 for p in parts) + 1
+    borrowed = []   # line ranges of "borrowed_spec_files": their lemmas are verified in the unit that owns the file
     for sf in unit.get("spec_files", []):
         p = os.path.join(unit["dir"], sf) if not sf.startswith("common/") else os.path.join(VERIF, "specs", sf)
+        b0 = sum(p_.count("\n") + 1 for p_ in parts) + 1
         parts.append(f"// ---- {sf} ----\n" + open(p).read())
+        if sf in unit.get("borrowed_spec_files", []):
+            borrowed.append((b0, sum(p_.count("\n") + 1 for p_ in parts)))
     text = "\n".join(parts) + "\n"
     spec_region_end = text.count("\n")
     asm = Assembled()
+    asm.borrowed = borrowed
     asm.spec_region = (spec_region_start, spec_region_end)
     asm.unit = unit
     asm.translation = tr
@@ -638,6 +643,8 @@ def assemble(unit: dict, scratch: str, passname="A") -> Assembled:
                 sup = (": " + " + ".join(sups)) if sups else ""
                 emit(f"pub trait {tname}{sup} {{")
                 for m in t["methods"]:
+                    if not any(f_.get("trait") == tname and f_["name"] == m["name"] and not f_["in_trait_decl"] for f_ in tr["fns"]):
+                        continue   # excluded via exclude_fns in every impl: keep the generated trait implementable
                     ps = ", ".join(p["ty"] if p["name"] == "self" else f"{p['name']}: {p['ty']}" for p in m["params"])
                     treq = unit.get("trait_requires", {}).get(f"{tname}::{m['name']}")   # trait-level precondition (ghost)
                     emit(f"    fn {m['name']}({ps})" + (f" -> {m['ret']}" if m["ret"] else "") + (f"\n        requires {treq}" if treq else "") + ";")
@@ -776,15 +783,17 @@ def shard_text(asm: "Assembled", kind: str) -> str:
     pat = re.compile(r"^(pub\s+)?(broadcast\s+)?proof\s+fn\s")
     XB = "#[verifier::external_body] "
     blank = []   # header line numbers (0-based) of externalised exec functions
+    borrowed = getattr(asm, "borrowed", [])
     for i, l in enumerate(lines):
         ln = i + 1
-        if s0 <= ln <= s1 and kind != "lemmas" and pat.match(l):
+        # kind "dev" (dev_run.py): everything of the unit, minus the lemmas of borrowed spec files
+        if s0 <= ln <= s1 and (kind not in ("lemmas", "dev") or any(b0 <= ln <= b1 for (b0, b1) in borrowed)) and pat.match(l):
             lines[i] = XB + l
-        elif l.startswith("/*@exec*/ ") and kind != "fns":
+        elif l.startswith("/*@exec*/ ") and kind not in ("fns", "dev"):
             if not (i > 0 and "external_body" in lines[i - 1]):
                 lines[i] = XB + l
             blank.append(i)
-        elif l.startswith("/*@canary*/ ") and kind != "canaries":
+        elif l.startswith("/*@canary*/ ") and kind not in ("canaries", "dev"):
             lines[i] = XB + l
             blank.append(i)
     # an externalised body is not checked by Verus but still has to be plain Rust: drop it (same line count)
